@@ -151,6 +151,9 @@ def make_setup(ctx, rng, mode, n_models, nb, resolved=False):
                 lw=lw, lc=lc, funits=funits)
 
 
+DRAWS = [0, 0]
+
+
 def draw_source(rng, st, regular=True):
     nb = len(st['bn'])
     k = st['k']
@@ -162,6 +165,14 @@ def draw_source(rng, st, regular=True):
         nine = valid == 9
         flux[nine] = 10.0 ** pred[nine]
         err[nine] = 0.1 * flux[nine]
+        DRAWS[0] += 1
+        if DRAWS[0] % 4 == 0 and nine.any():
+            # a plot-only slot holding a placeholder instead of a measurement (-999, 0, NaN): it takes no part in any fit (C03), and
+            # "never modifies the source it is given" covers these slots like any other
+            ph = [-999.0, 0.0, float('nan'), -999.9][(DRAWS[0] // 4) % 4]
+            flux[nine] = ph
+            err[nine] = [ph, 1.0][(DRAWS[0] // 16) % 2]
+            DRAWS[1] += 1
         cond, wsum = tolerances(valid, flux, err, k, st['mode'])
         if np.isfinite(cond) and cond >= 1e-6:
             return valid, flux, err, cond, wsum
@@ -180,7 +191,7 @@ def run(ctx):
     ctx.require_events('Fitter.fit:post', 'pair:filter-permutation', 'pair:model-permutation', 'pair:flux-scaling', 'pair:history',
                        'history:same-flags-other-errors', 'history:two-live-fitters', 'pair:filter-permutation:remove_resolved',
                        'history:several-live-fitters-on-one-package', 'pair:filter-permutation:v2', 'pair:model-permutation:v2', 'source-arrays-edited-in-place')
-    ctx.require_regimes('mode:2d', 'mode:3d', 'history:remove_resolved-band-dependent', 'history:v2-memmap')
+    ctx.require_regimes('source:placeholder-in-plot-only-slot', 'mode:2d', 'mode:3d', 'history:remove_resolved-band-dependent', 'history:v2-memmap')
     n_sets = 1 if ctx.quick else 4
     for iset in range(n_sets):
         for mode in ('2d', '3d'):
@@ -420,6 +431,9 @@ def history_block(ctx, rng, st, sources, mode, iset, fkw, other=None, tag=''):
                                   dict(mode=mode, history=list(map(int, h)), differs=diffs, fitter_options=fkw, package=tag or 'v1'))
                 ctx.event('pair:history')
                 ctx.case(('hist', iset, mode, tuple(map(int, h)), ih % 2, bool(fkw), tag, ctx.shard), nontrivial=True)
+
+    if DRAWS[1]:
+        ctx.regime('source:placeholder-in-plot-only-slot', DRAWS[1])
 
 
 def replay(ctx, rec):
